@@ -534,6 +534,22 @@ def install(interp):
 
         return math.floor(x)
 
+    def it_accumulate(seq, func=None, *, initial=None):
+        """itertools.accumulate over a chunk grid with operator.add: closed-form prefix sums (assumed contract of
+        accumulate; the step lemma prefix(k+1) == prefix(k) + get(k) is proved per run)"""
+        import itertools
+        import operator
+
+        from .symseq import Grid, OffsetPrefixSeq
+
+        if isinstance(seq, Grid) and not seq.concrete_len() and func is operator.add and initial is not None:
+            interp.ctx.note_assumption("itertools.accumulate(grid, add, initial=o)[k] == o + sum of the first k elements")
+            return OffsetPrefixSeq(seq, initial)
+        args = [seq] + ([func] if func is not None else [])
+        return itertools.accumulate(*args, initial=initial)
+
+    NO["itertools.accumulate"] = it_accumulate
+
     NO["math.ceil"] = math_ceil
     NO["math.floor"] = math_floor
 
